@@ -77,6 +77,14 @@ def run(data):
             if n != 0 and u is not One and u.prefix is IdentityPrefix:
                 cu = (p * u) / (q * mk_unit([[None, "second", 1]]))
                 chk("compound-power", relclose((cu ** n).prefix.quantify(), (Fraction(p.base) ** p.exponent / Fraction(q.base) ** q.exponent) ** n))
+            # a root that lands on a prefix nobody has built yet: it is the same object as the power built afterwards, and its factor is exact
+            # (an integer for positive SI exponents, however large)
+            if p.base == 10 and isinstance(p.exponent, int) and p.exponent > 0 and u.prefix is IdentityPrefix:
+                for nn in (5 + abs(n), 9 + abs(n)):
+                    r_ = (p ** (2 * nn)).root(2)
+                    chk("root-then-power", r_ is p ** nn and isinstance(r_.exponent, int) and isinstance((p ** nn).quantify(), int)
+                        and (p ** nn).quantify() == 10 ** (p.exponent * nn)
+                        and (1 * ((p ** nn) * u)).unprefixed().magnitude == (10 ** (p.exponent * nn)) * (1 * u).unprefixed().magnitude)
             chk("identity-neutral", (p * IdentityPrefix) is p and (IdentityPrefix * p) is p and (p / IdentityPrefix) is p and (IdentityPrefix * u) is u)
             # dividing by a prefixed unit divides by its factor
             qq = Quantity(m, u * u)
